@@ -34,6 +34,9 @@ struct rs_harness {
 	/* optional: observer of every hooked atomic operation (after it executed) */
 	void (*on_op)(int kind, const volatile void *addr, unsigned size, const char *file, int line, uint64_t before,
 	    uint64_t after);
+	/* optional: called when every live thread is parked or blocked, before a deadlock is declared; returns non-zero if it
+	 * changed something threads may be waiting for (e.g. released messages the environment was holding back) */
+	int (*on_quiesce)(void);
 	/* optional: harness context appended to deadlock / livelock verdicts (part of the signature) */
 	void (*describe)(char *buf, size_t cap);
 	/* names for the user counters, for the report */
